@@ -89,6 +89,9 @@ def run(rep, tier, seed):
         t = copy.deepcopy(ev)
         t["craised"] = {"kind": "other", "exc": "KeyError"}
         expect("validate-collecting-raised", [t], "tree:collecting-mode-raised", module="TraceValidate", cfg="TraceValidate.cfg")
+        t = copy.deepcopy(ev)
+        t["rerun"] = False
+        expect("validate-second-run-differs", [t], "tree-errors-of-a-second-run-into-the-same-list-differ", module="TraceValidate", cfg="TraceValidate.cfg")
     else:
         results.append(("validate-corruptions", "n/a", ["fixture mutations produced no error"], False))
 
